@@ -568,7 +568,13 @@ def cases_for(prop, tier, seed, pools, toks, ck):
         cases += gen.gen_huge_store_cases("C03", rnd.choice(L), rnd, pools["en"], per(1, 6))
     elif prop == "C04":
         for lang in L:
-            cases += gen.gen_edit_cases(lang, rnd, pools[lang], toks, per(6, 150), per_pos=per(1, 3))
+            bw = gen.three_letter_words(lang, rnd, per(3, 40))
+            # titles of a dozen words (listings with the whole description in the title): far more grams than any record of
+            # the bundled data set has
+            for _k in range(per(2, 20)):
+                bw.append(" ".join(rnd.sample(pools[lang], 3))[:190])
+            more_toks(ck, toks, [(lang, t) for t in bw], "pre_c04")
+            cases += gen.gen_edit_cases(lang, rnd, pools[lang], toks, per(6, 150), per_pos=per(1, 3), extra=bw)
     elif prop == "C13":
         for lang in L:
             echo = gen.compound_echo_titles(rnd, pools[lang], per(8, 60))
@@ -638,7 +644,14 @@ def cases_for(prop, tier, seed, pools, toks, ck):
         raise ToolError("no plan for %s" % prop)
     if prop in ("C03", "C04", "C05", "C06", "C08", "C13", "C14"):
         # a share of the cases is asked a second time through the top-level API (lib.rs): what a user of the library gets
-        api = [gen.via_registry(c) for c in cases if rnd.random() < 0.2 and sum(1 for o in c.ops if o.get("op") == "add") <= 60]
+        # ... half of them next to an id of another language (preferably a stemming one next to a non-stemming one and vice
+        # versa) that is asked every input first
+        def other_lang(c):
+            lg = c.ops[0].get("lang")
+            return rnd.choice([None, None, "en" if lg != "en" else "none", "en" if lg != "en" else "de", rnd.choice(gen.LANGS)])
+        share = 0.3 if prop == "C14" else 0.2
+        api = [gen.via_registry(c, foreign=other_lang(c))
+               for c in cases if rnd.random() < share and sum(1 for o in c.ops if o.get("op") == "add") <= 60]
         cases += [c for c in api if c is not None]
     return cases
 
